@@ -39,9 +39,16 @@ def generate(rng, n, tier):
         vals = rng.choice([[0, 1, 2], [1, 3, 4, 9, 20], [0, 5], [0.5, 0.25, 1.75, 3],
                            [10 ** 8, 10 ** 8 + 1, 10 ** 8 + 3, 2 * 10 ** 8 + 1, 3],          # large constant + small detail: near-tied totals
                            [2 ** 24 + 1, 2 ** 24 + 3, 2 ** 25 + 1, 1], [2.0 ** -20, 1 + 2.0 ** -20, 2, 1],
+                           [2 ** 24 + 2, 2 ** 24 + 4, 1, 2, 2 ** 25 + 4], [2 ** 24 + 2, 2 ** 24 + 4, 1, 2, 2 ** 25 + 4],       # exact in single precision, their sums are not
+                           [1000.0, 1000.25, 2000.5, 0.125, 3000.0],
                            [-2, -1, 0, 1, 3], [-0.5, -4, 2, 0.25], [-1, -3],                      # rewards minus penalties: negative entries
                            [0, 2.0 ** -40, 2.0 ** -39], [2.0 ** -40, 3 * 2.0 ** -40, 2.0 ** -38, 0]])     # tiny scale (exact in binary): the optimum does not depend on the unit
-        out.append({'C': sym_matrix(rows, vals, rng), 'mode': rng.choice([0, 1]), 'twice': rng.random() < 0.3, 'dtype': rng.choice(['float', 'float', 'int', 'bool'])})
+        out.append({'C': sym_matrix(rows, vals, rng), 'mode': rng.choice([0, 1]), 'twice': rng.random() < 0.3, 'dtype': rng.choice(['float', 'float', 'int', 'bool', 'float32', 'float32'])})
+    for _ in range(max(40, n // 8)):
+        # small single-precision matrices whose entries are exact in float32 while sums of two or three of them are not (2^24 + 2 plus 1): the optimum is that of the exact sums
+        rows = rng.randint(3, 5)
+        vals = rng.choice([[2 ** 24 + 2, 2 ** 24 + 4, 1, 2, 2 ** 24 + 6, 3], [2 ** 24 + 2, 2 ** 24 + 4, 1, 2 ** 25 + 4, 2 ** 25 + 8], [1000.0 * 2 ** 14, 1000.0 * 2 ** 14 + 2, 1, 3, 1000.0 * 2 ** 15 + 4]])
+        out.append({'C': sym_matrix(rows, vals, rng), 'mode': rng.choice([0, 1]), 'twice': False, 'dtype': 'float32'})
     return out
 
 
@@ -53,7 +60,9 @@ def run_impl(case):
     ints = all(float(v) == int(v) for r in C for v in r)
     if dt == 'bool' and not all(v in (0, 1) for r in C for v in r) or dt == 'int' and not ints:
         dt = 'float'
-    M = np.array(C, dtype={'float': float, 'int': np.int64, 'bool': bool}[dt])          # the same matrix in another numeric representation
+    if dt == 'float32' and not all(float(np.float32(v)) == float(v) for r in C for v in r):
+        dt = 'float'
+    M = np.array(C, dtype={'float': float, 'int': np.int64, 'bool': bool, 'float32': np.float32}[dt])          # the same matrix in another numeric representation (a down-cast or GPU-made matrix)
     if case.get('twice'):                         # the caller's matrix object is used for both directions: the first call must leave it as it was
         sg.optimalPartition(M, 1 - case['mode'], False)
     out = sg.optimalPartition(M, case['mode'], False)
